@@ -114,6 +114,10 @@ def reader_obligations(rep, T, want_rules=("R1", "R2", "R3", "R5", "R7", "R8")):
                 rs0 = summarise_reader(T, cls, suffix, passed, version, save_ref=False)
                 for det, msg in rs0.ref_problems:
                     groups.setdefault((code, suffix, "ref:" + det, msg, "nothing registered without FLAG_REF", where), []).append(v2)
+            # R5 containers hand their own bytes_for_s setting to every child
+            if rs.child_bfs:
+                bad = sorted(set(b for b in rs.child_bfs if b != "bytes_for_s"))
+                groups.setdefault((code, suffix, "child-bytes_for_s", repr(bad), "[]", where), []).append(v2)
             # R5 text decoding of TYPE_UNICODE for py3 producers
             if code == "u" and v2 >= (3, 1):
                 dec = tuple(str(x) for x in (rs.decode or ()))
@@ -151,6 +155,10 @@ def reader_obligations(rep, T, want_rules=("R1", "R2", "R3", "R5", "R7", "R8")):
                 continue  # the specific ref:* entries describe it
         elif aspect.startswith("ref:"):
             ok, rule, msg = False, "R3", got
+        elif aspect == "child-bytes_for_s":
+            ok = got == exp
+            rule = "R5"
+            msg = "type %r reads its children with bytes_for_s=%s instead of the setting it was called with: strings inside this container get the wrong kind (bytes vs text)" % (code, got)
         elif aspect == "decode":
             ok = ("surrogatepass" in got) and ("utf" in got.lower())
             rule = "R5"
